@@ -361,6 +361,40 @@ pub fn drive(a: &Args) {
             out.emit(run_behaviour(route, &ivs, &chars, &sets));
         }
     }
+    // a long partition merged with a short one (in both orders, and as a list): the short one before, inside,
+    // between and after the intervals of the long one, filling the gap at 0 or leaving it
+    for n in [3usize, 9, 16, 17, 18, 33, a.sz(40, 130)] {
+        for shape in 0..3u32 {
+            let long: Vec<Iv> = (0..n as u32)
+                .map(|k| match shape {
+                    0 => (10 * k + 5, 10 * k + 8),
+                    1 => (2 * k + 2, 2 * k + 3),
+                    _ => (3 * k + 1, 3 * k + 1),
+                })
+                .collect();
+            let last = long[long.len() - 1].1;
+            let first = long[0].0;
+            let mid = long[long.len() / 2];
+            let shorts: Vec<Vec<Iv>> = vec![
+                vec![(0, first - 1)],
+                vec![(0, 0)],
+                vec![(0, first)],
+                vec![(mid.0, mid.1)],
+                vec![(mid.1 + 1, mid.1 + 1)],
+                vec![(mid.0, mid.1 + 1)],
+                vec![(last + 1, last + 4)],
+                vec![(last + 3, MAX_CHAR)],
+                vec![(0, first - 1), (last + 1, MAX_CHAR)],
+                vec![(0, MAX_CHAR)],
+            ];
+            for s in shorts {
+                mo.emit(merge_record(&long, &s));
+                mo.emit(merge_record(&s, &long));
+                mo.emit(mergelist_record(&[long.clone(), s.clone()]));
+                mo.emit(mergelist_record(&[s.clone(), long.clone(), vec![(last + 10, last + 12)]]));
+            }
+        }
+    }
     // full-alphabet scans of class_of_char: run-length encoded answers for a sample of partitions
     let nscan = a.sz(6, 200);
     let mut so = Out::create(&a.out, "part_scans.ndjson");
